@@ -91,12 +91,24 @@ def typestate_terminal(chk, prog, sim):
     chk.obligation(key, "addend slots of the terminal state read")
     chk.analysed(fn["pretty"])
     ok = True
-    for own, partner, ps in itertools.product((False, True), (False, True), (False, True)):
+    for own, partner, ps, fol in itertools.product((False, True), (False, True), (False, True), (False, True)):
         if not partner and ps:
             continue
-        leaves, h = D.run_terminal_get(sim, prog, fn, own, False, partner, ps, False)
+
+        def hook(sim_, st_, label, method, args, ret_ty, ver):
+            return K.build_output(sim_, ret_ty, "S", "f")      # a followed getter, if polled, is present: the worst case for the slot count
+        old_hook = sim.oracle_hook
+        sim.oracle_hook = hook
+        try:
+            leaves, h = D.run_terminal_get(sim, prog, fn, own, False, partner, ps, False, following=fol)
+        finally:
+            sim.oracle_hook = old_hook
         for leaf in leaves:
-            chk.evaluated(1, nontrivial=(key, own, partner, ps))
+            chk.evaluated(1, nontrivial=(key, own, partner, ps, fol))
+            polls = [e for e in leaf.effects if e[0] == "call" and "followed" in e[1]]
+            if polls:
+                chk.violation("C16.T", "Terminal::get:polls-followed", "the terminal state read polls the getter the terminal follows (%s): a third state source for a two-slot scratch array" % polls[0][2], fn=fn["pretty"], file=loc(fn["span"]))
+                ok = False
             if leaf.kind == "unsupported":
                 chk.violation("analysis-incomplete", key, "simulator cannot model terminal state read: %s" % leaf.info["msg"])
                 ok = False
@@ -542,6 +554,7 @@ def run(chk):
     # variance of Reference<T> in the feature-less build (only the raw-pointer variant exists there): a compile-fail witness with a
     # compiling twin; a covariant payload (NonNull<T> instead of *mut T) lets safe code shorten Reference<&'static str>
     witness.check(chk, "typelevel_nostd", "C16", "C16.V")
+    witness.check(chk, "typelevel", "C17", "C16.V", only=("send_reference_fail", "send_reference_twin", "sync_reference_fail"))
     if chk.tier == "thorough":
         witness.check(chk, "typelevel", "C16", "C16.witness")
     chk.assume("MaybeUninit/slice/pointer std functions behave as modelled", "aliasing of two Ptr References to one static mut is out of scope (documented caveat)")
